@@ -10,7 +10,7 @@ from gen_git import *  # noqa
 PROP_FILES = ["Git/Properties_C19.v"]
 MANIFEST = dict(
     technique="Coq proof (nested induction over git trees) on a Gallina port of git/diff.rs + check_git_diff.rs, tied by differential execution of the extracted model against GitDiff (library) and `check --diff/--staged` (CLI) on random histories built with the real git, plus git diff as an independent oracle",
-    text="Theorems C19_tree_diff_exact, C19_equal_oid_equal_flatten, C19_subtree_cases, C19_range_parse, C19_diff_files_exact, C19_diff_run_is_restriction, C19_files_list_is_restricted, C19_staged_exact hold for all trees / indexes / file lists (unbounded; names unique per tree). The tie to the Rust code is a seeded differential run over scripted git histories (adds, edits, deletions, renames, chmod, file<->directory swaps, nesting, branches, tags, merges, symlinks, submodule entries, empty repository, staged/partially staged states) and every ref/range spelling, at library level (raw sets) and CLI level (reported files, statuses, structure results; also with an explicit --files list of members and non-members of the set, fix D105), and git diff --raw/--name-only --no-renames as second oracle.",
+    text="Theorems C19_tree_diff_exact, C19_equal_oid_equal_flatten, C19_subtree_cases, C19_range_parse, C19_diff_files_exact, C19_diff_run_is_restriction, C19_files_list_is_restricted, C19_staged_exact hold for all trees / indexes / file lists (unbounded; names unique per tree). The tie to the Rust code is a seeded differential run over scripted git histories (adds, edits, deletions, renames, chmod, file<->directory swaps, nesting, branches, tags, merges, symlinks, submodule entries, empty repository, staged/partially staged states, detached HEAD, linked work trees with their own HEAD and index, an index named by GIT_INDEX_FILE) and every ref/range spelling, at library level (raw sets) and CLI level (reported files, statuses, structure results; also with an explicit --files list of members and non-members of the set and of spellings through symbolic links, fixes D105 / D190), and git diff --raw/--name-only --no-renames as second oracle.",
     note="Trusted: Coq kernel, extraction (ExtrOcamlBasic), harness sgv-git, gix object reading and rev-parsing (entering as data: the two trees / the index are read with git ls-tree / ls-files), SHA-1 collision freeness (object-id equality is modelled as structural equality), std::fs::canonicalize (entering as a table computed with os.path.realpath). Mode-only changes are changes, as for git diff --name-only (fix D70); git diff records that touch only symlinks / submodules are not about regular files and are left out of the oracle.",
     ref="5 (C19)")
 
@@ -28,8 +28,8 @@ def prepare_git(ctx):
 
 # ------------------------------------------------------------------ one repository
 
-def cli(sb, exe, cwd, extra):
-    rc, out, err = sb.run(exe, SG_ARGS + extra, cwd=cwd, env={"RAYON_NUM_THREADS": "2"}, timeout=120)
+def cli(sb, exe, cwd, extra, env=None):
+    rc, out, err = sb.run(exe, SG_ARGS + extra, cwd=cwd, env=dict({"RAYON_NUM_THREADS": "2"}, **(env or {})), timeout=120)
     return rc, out, err
 
 
@@ -69,7 +69,7 @@ def spec_sets(fa, fb):
     return chg, dele
 
 
-def run_script_case(script, subdir, exes, queries=None, seed=0, tier="quick", variant="norm", keep=None, staged_files=None):
+def run_script_case(script, subdir, exes, queries=None, seed=0, tier="quick", variant="norm", keep=None, staged_files=None, alt_index=None):
     """Execute one scripted history and all its queries against the implementation.
     Returns a dict with everything the model side and the oracles need."""
     sgcli, sgvgit, _ = exes
@@ -99,7 +99,7 @@ def run_script_case(script, subdir, exes, queries=None, seed=0, tier="quick", va
         else:
             troid = {}
         idx = read_index(repo)
-        cwd = os.path.join(sb.proj, subdir) if subdir else sb.proj
+        cwd = os.path.join(repo.root, subdir) if subdir else repo.root      # repo.root: the linked work tree if the script made one
         sub_b = (subdir.encode() + b"/") if subdir else b""
 
         # ---- full run. When the project root is not the repository root the tool keeps its state in
@@ -118,6 +118,20 @@ def run_script_case(script, subdir, exes, queries=None, seed=0, tier="quick", va
         for c in commits:
             cand |= set(flats[c])
         cand |= {p for (p, _, _, _) in idx}
+        # spellings through symbolic links that a user could pass to --files (fix D190): a link to a regular
+        # file, a file reached through a linked directory
+        link_cands = []
+        for l in repo.walk()[1]:
+            rp = os.path.realpath(repo.abs(l))
+            if os.path.isfile(rp):
+                link_cands.append(l.encode())
+            elif os.path.isdir(rp):
+                link_cands += [(l + "/" + x).encode() for x in sorted(os.listdir(rp))[:3] if os.path.isfile(os.path.join(rp, x))]
+        link_cands = [p for p in link_cands if p.startswith(sub_b)]
+        cand |= set(link_cands)
+        for q0 in (queries or []):
+            cand |= {sub_b + f.encode() for f in (q0.get("files") or [])}
+        cand |= {sub_b + f.encode() for f in (staged_files or [])}
         cmap = canon_map(repo, sorted(cand))
         cw = canon_wire(cmap)
         fw = paths_wire(full_files)
@@ -159,6 +173,8 @@ def run_script_case(script, subdir, exes, queries=None, seed=0, tier="quick", va
                 rels = [p[len(sub_b):].decode() for p in pick]
                 if rng.random() < 0.15:
                     rels.insert(rng.randint(0, len(rels)), "no such file.rs")
+                if link_cands and rng.random() < 0.4:
+                    rels.insert(rng.randint(0, len(rels)), rng.choice(link_cands)[len(sub_b):].decode())
             if not rels:
                 return None
             rc3, o3, e3 = cli(sb, sgcli, cwd, mode_args + ["--files"] + rels)
@@ -205,6 +221,45 @@ def run_script_case(script, subdir, exes, queries=None, seed=0, tier="quick", va
         else:
             case["cli_error"] = {"rc": rc, "stderr": e2[:300]}
         out["cases"].append(case)
+
+        # ---- staged, with the index git names in GIT_INDEX_FILE (fix D191): the state a pre-commit hook sees
+        # under `git commit -a` (a copy of the index with every tracked modification added), under
+        # `git add -A` semantics, or a name where no file exists (an empty index)
+        if alt_index is None and script is None and rng.random() < 0.3:
+            alt_index = rng.choice(["add -u", "add -u", "add -A", "missing"])
+        if alt_index and not case.get("unmerged") and "cli" in case:
+            alt = os.path.join(sb.base, "alt-index")
+            rc0, o0 = repo.git("rev-parse", "--git-path", "index")
+            own = os.path.join(repo.root, o0.decode().strip())
+            if alt_index != "missing" and os.path.exists(own):
+                shutil.copy2(own, alt)
+            genv = {"GIT_INDEX_FILE": alt}
+            repo.extra_env = genv
+            try:
+                if alt_index != "missing":
+                    repo.git("add", "-u" if alt_index == "add -u" else "-A", ok_fail=True)
+                idx2 = read_index(repo)
+                raw2 = git_raw_diff(repo, ["--cached"])
+            finally:
+                repo.extra_env = None
+            cand2 = {p_ for (p_, _, _, _) in idx2} - set(cmap)
+            cmap2 = dict(cmap)
+            cmap2.update(canon_map(repo, sorted(cand2)))
+            case2 = {"kind": "staged_alt", "how": alt_index, "head": case["head"], "index": index_wire(idx2), "canon": canon_wire(cmap2), "files": fw,
+                     "unmerged": any(st for *_x, st in idx2)}
+            rc2, o2, e2 = cli(sb, sgcli, cwd, ["--staged"], env=genv)
+            if rc2 in (0, 1):
+                files2, bad2 = check_cli_result(o2, "staged_alt")
+                changed2 = {r[5]: r for r in raw2 if regular_change(r)}
+                case2["cli"] = files2
+                case2["cli_bad"] = bad2
+                case2["oracle"] = [p_ for p_ in full_files if p_ in changed2 and is_regular_on_disk(repo, p_)]
+                case2["own_oracle"] = case["oracle"]
+                lo2, _, _ = run_lines(sgvgit, ["staged\t" + cwd], timeout=60, env=dict(sb.env, **genv))
+                case2["lib"] = lo2[0] if lo2 else "<NOANSWER>"
+            else:
+                case2["cli_error"] = {"rc": rc2, "stderr": e2[:300]}
+            out["cases"].append(case2)
 
         # ---- diff queries
         qs = []
@@ -325,6 +380,10 @@ def corpus_cases():
     return out
 
 
+def full_set_of(res):
+    return set(f.encode() for f in res.get("full", {}).get("files", []))
+
+
 def dec_list(ps):
     return [p.decode("utf-8", "replace") for p in ps]
 
@@ -355,14 +414,14 @@ def run_with(ctx, exes):
     nrepo = 300 if ctx.tier == "quick" else 2500
     jobs = []
     for c in corpus_cases():
-        jobs.append(dict(script=c["script"], subdir=c.get("subdir"), queries=c.get("queries"), seed=0, variant="corpus:" + c.get("name", "?"), staged_files=c.get("staged_files")))
+        jobs.append(dict(script=c["script"], subdir=c.get("subdir"), queries=c.get("queries"), seed=0, variant="corpus:" + c.get("name", "?"), staged_files=c.get("staged_files"), alt_index=c.get("alt_index")))
     for k in range(nrepo):
         r = ctx.rng.random()
         variant = "nocommit" if r < 0.07 else ("subdir" if r < 0.17 else "norm")
         jobs.append(dict(script=None, subdir="pkg" if variant == "subdir" else None, seed=ctx.rng.randrange(1 << 40), variant=variant))
     results = []
     with cf.ThreadPoolExecutor(max_workers=14) as ex:
-        futs = [ex.submit(run_script_case, j["script"], j["subdir"], exes, j.get("queries"), j["seed"], ctx.tier, j["variant"], None, j.get("staged_files")) for j in jobs]
+        futs = [ex.submit(run_script_case, j["script"], j["subdir"], exes, j.get("queries"), j["seed"], ctx.tier, j["variant"], None, j.get("staged_files"), j.get("alt_index")) for j in jobs]
         for f in futs:
             results.append(f.result())
 
@@ -380,6 +439,9 @@ def run_with(ctx, exes):
                     lines.append("diff\t%s\t%s\t%s\t%s" % (c["ta"], c["tb"], c["canon"], c["files"])); meta.append((ri, ci, "diff"))
                 if "listed" in c and "cli" in c["listed"]:
                     lines.append("diff\t%s\t%s\t%s\t%s" % (c["ta"], c["tb"], c["canon"], paths_wire(c["listed"]["listed"]))); meta.append((ri, ci, "listed"))
+            elif c["kind"] == "staged_alt" and "cli" in c:
+                lines.append("staged\t%s\t%s\t%s" % (c["head"], c["index"], c["canon"])); meta.append((ri, ci, "alt_lib"))
+                lines.append("stagedf\t%s\t%s\t%s\t%s" % (c["head"], c["index"], c["canon"], c["files"])); meta.append((ri, ci, "alt_cli"))
             elif c["kind"] == "staged":
                 lines.append("staged\t%s\t%s\t%s" % (c["head"], c["index"], c["canon"])); meta.append((ri, ci, "staged"))
                 if "cli" in c:
@@ -392,7 +454,8 @@ def run_with(ctx, exes):
 
     mism, viol, stats = [], [], {"lib_range": 0, "lib_staged": 0, "cli_diff": 0, "cli_staged": 0, "oideq": 0, "spec_instances": 0,
                                  "pairs_with_special_typechange": 0, "rejects": 0, "spelling_rejected_by_gix": 0,
-                                 "cli_files_list": 0, "cli_files_list_members": 0, "cli_files_list_nonmembers": 0}
+                                 "cli_files_list": 0, "cli_files_list_members": 0, "cli_files_list_nonmembers": 0, "cli_files_list_symlink_spellings": 0,
+                                 "staged_alt_index": 0, "staged_alt_index_differs_from_own": 0}
     hist, spk_hist, variants = {}, {}, {}
     nontrivial = set()
     stats["scanned_files"] = sum(len(r["full"]["files"]) for r in results if "full" in r)
@@ -414,6 +477,8 @@ def run_with(ctx, exes):
                 d["queries"][0]["files"] = c["listed"]["args"]
         elif c["kind"] == "staged" and "listed" in c:
             d["staged_files"] = c["listed"]["args"]
+        elif c["kind"] == "staged_alt":
+            d["alt_index"] = c["how"]
         d.update(extra)
         d["replay_cmd"] = "python3 tools/vp.py check C19 --replay <this file>"
         return d
@@ -476,11 +541,27 @@ def run_with(ctx, exes):
                         viol.append((res, c, {"kind": "git-diff-oracle", "class": "typechange-special", "range": c["range"], "reported": dec_list(c["cli"]), "git_diff_existing_regular": dec_list(c["oracle"])}))
                 else:
                     viol.append((res, c, {"kind": "git-diff-oracle", "range": c["range"], "reported": dec_list(c["cli"]), "git_diff_existing_regular": dec_list(c["oracle"])}))
+        elif what == "alt_lib":
+            if c["lib"] != mo:
+                mism.append((res, c, "get_staged_files with GIT_INDEX_FILE (%s): impl %s / model %s" % (c["how"], c["lib"] if not c["lib"].startswith("OK") else dec_list(parse_paths(c["lib"])), dec_list(parse_paths(mo)))))
+        elif what == "alt_cli":
+            stats["staged_alt_index"] += 1
+            if c["oracle"] != c["own_oracle"]:
+                stats["staged_alt_index_differs_from_own"] += 1
+            m = parse_paths(mo)
+            if c["cli"] != m:
+                mism.append((res, c, "check --staged with GIT_INDEX_FILE (%s) reported %s, model %s" % (c["how"], dec_list(c["cli"]), dec_list(m))))
+            for b in c["cli_bad"]:
+                viol.append((res, c, {"kind": "restriction", "what": b, "mode": "staged, GIT_INDEX_FILE: " + c["how"]}))
+            if c["cli"] != c["oracle"] and not c["unmerged"]:
+                viol.append((res, c, {"kind": "git-diff-oracle", "mode": "staged with GIT_INDEX_FILE naming a copy of the index after git " + c["how"],
+                                      "reported": dec_list(c["cli"]), "git_diff_cached_existing_regular": dec_list(c["oracle"])}))
         elif what == "listed":
             # --files L with --diff / --staged (fix D105): exactly the listed members of the changed set
             L = c["listed"]
             stats["cli_files_list"] += 1
             stats["cli_files_list_members"] += len(L["expected"])
+            stats["cli_files_list_symlink_spellings"] += sum(1 for x in L["listed"] if x not in full_set_of(res) and x.decode("utf-8", "replace") != (res["subdir"] + "/" if res["subdir"] else "") + "no such file.rs")
             stats["cli_files_list_nonmembers"] += len([x for x in L["listed"] if x not in L["expected"]])
             mode = "--staged" if c["kind"] == "staged" else "--diff " + c["range"]
             m = parse_paths(mo)
@@ -536,7 +617,7 @@ def run_with(ctx, exes):
             if c["kind"] == "reject":
                 pass
             elif "cli_error" in c:
-                core = c["kind"] == "staged" or (c["spk"][0] in CORE_SPELLINGS and c["spk"][1] in CORE_SPELLINGS)
+                core = c["kind"] in ("staged", "staged_alt") or (c["spk"][0] in CORE_SPELLINGS and c["spk"][1] in CORE_SPELLINGS)
                 if c["kind"] == "staged" and "Failed to open git index" in c["cli_error"]["stderr"] and ctx.known("no-index-file", ""):
                     pass
                 elif core:
@@ -547,7 +628,7 @@ def run_with(ctx, exes):
     # ---- parse_diff_range: library vs model on random strings
     pstats = parse_tie(ctx, sgvgit, model, mism)
 
-    evals = sum(stats[k] for k in ("lib_range", "lib_staged", "cli_diff", "cli_staged", "rejects", "cli_files_list")) + pstats["strings"]
+    evals = sum(stats[k] for k in ("lib_range", "lib_staged", "cli_diff", "cli_staged", "rejects", "cli_files_list", "staged_alt_index")) + pstats["strings"]
     ctx.cov["evaluations"] = evals
     ctx.cov["distinct_nontrivial"] = len(nontrivial) + pstats["distinct_ranges"]
     ctx.cov["traces_validated_against_impl"] = evals - len(mism)
@@ -709,13 +790,13 @@ def replay(ctx, path):
                 if k in c:
                     v = c[k]
                     print("   %-8s %s" % (k, dec_list(v) if isinstance(v, list) and v and isinstance(v[0], bytes) else v))
-    res = run_script_case(j["script"], j.get("subdir"), exes, j.get("queries") or [], 0, "quick", "replay", keep, j.get("staged_files"))
+    res = run_script_case(j["script"], j.get("subdir"), exes, j.get("queries") or [], 0, "quick", "replay", keep, j.get("staged_files"), j.get("alt_index"))
     model = exes[2]
     for c in res["cases"]:
         if c["kind"] == "diff":
             o, _, _ = run_lines(model, ["range\t%s\t%s\t%s" % (c["ta"], c["tb"], c["canon"]), "diff\t%s\t%s\t%s\t%s" % (c["ta"], c["tb"], c["canon"], c["files"])])
             print("model range:", dec_list(parse_paths(o[0])), " diff:", dec_list(parse_paths(o[1])))
-        elif c["kind"] == "staged":
+        elif c["kind"] in ("staged", "staged_alt"):
             o, _, _ = run_lines(model, ["staged\t%s\t%s\t%s" % (c["head"], c["index"], c["canon"]), "stagedf\t%s\t%s\t%s\t%s" % (c["head"], c["index"], c["canon"], c["files"])])
             print("model staged:", dec_list(parse_paths(o[0])), " stagedf:", dec_list(parse_paths(o[1])))
     return 0
